@@ -97,11 +97,13 @@ pub fn gen(rng: &mut Rng, tier: &str) -> String {
         return format!("C07 sscan {} {} {} {} {}", k, p, rng.below(2), show_nat_list(&v), show_digits(&seq));
     }
     let ps: &[usize] = if tier == "thorough" { &[2, 3, 4, 5, 6, 8, 10, 12, 14, 15, 16] } else { &[2, 3, 4, 5, 8] };
-    let p = *rng.pick(ps);
-    let k = p + if rng.chance(1, 6) { 0 } else { rng.below(13) };
+    // now and then a window of 62..72 p-mers (k - p around 64) on a longer sequence, with p-mers wide enough for distinct scores
+    let widewin = rng.chance(1, 12);
+    let p = if widewin { *rng.pick(&[4usize, 5, 5, 8]) } else { *rng.pick(ps) };
+    let k = p + if widewin { *rng.pick(&[61usize, 62, 63, 64, 64, 65, 66, 71]) } else if rng.chance(1, 6) { 0 } else { rng.below(13) };
     let alpha = rng.range(1, 4);
     // mostly valid (len >= k), a small malformed stream (len < k) to compare the assertion
-    let len = if rng.chance(1, 40) { rng.below(k) } else { k + if rng.chance(1, 5) { rng.below(3) } else { rng.below(70) } };
+    let len = if widewin { k + rng.range(300, 900) } else if rng.chance(1, 40) { rng.below(k) } else { k + if rng.chance(1, 5) { rng.below(3) } else { rng.below(70) } };
     let seq = random_seq(rng, len, alpha);
     let score = if p <= 4 && rng.chance(1, 2) {
         let n = 1usize << (2 * p);
